@@ -492,5 +492,14 @@ def run(ctx: Ctx, rep: Report, tier: str) -> None:
     sub = Report("C13")
     memo_rules(ctx, sub, rid="R05.1")
     rep.absorb(sub, "R13.6")
+    # R13.8 the members a group is judged by are the members its text names: parsed under the group's own limit (C05
+    # R05.6: a member refused under the default limit is silently left out), attached from the group of that very name (C07 R07.1)
+    from .c05 import r05_6
+    from .c07 import r07_1
+
+    sub = Report("C13")
+    r05_6(ctx, sub)
+    r07_1(ctx, sub)
+    rep.absorb(sub, "R13.8")
     rep.rule("R13.3")
     rep.floor(6, "elementary tests and loops of the containment operators")
